@@ -65,6 +65,7 @@ type addrT struct {
 	Good bool
 	Base bool // member of the plain grammar product (no whitespace / doubled-colon variant, no token sequence)
 	Tok  bool // token sequence
+	NTok int  // number of tokens of a token sequence
 }
 
 func c19Strings(tier string) []addrT {
@@ -83,11 +84,11 @@ func c19Strings(tier string) []addrT {
 	tails := []string{"", ";", ";mode=0600", ";a;b", ";@x", ";unix:@y", ";:"}
 	var out []addrT
 	seen := map[string]bool{}
-	isBase, isTok := false, false
+	isBase, isTok, nTok := false, false, 0
 	add := func(t string, good bool) {
 		if !seen[t] {
 			seen[t] = true
-			out = append(out, addrT{t, good, isBase, isTok})
+			out = append(out, addrT{t, good, isBase, isTok, nTok})
 		}
 	}
 	for _, p := range protos {
@@ -120,6 +121,7 @@ func c19Strings(tier string) []addrT {
 	}
 	var rec func(prefix string, k int)
 	rec = func(prefix string, k int) {
+		nTok = n - k
 		add(prefix, false)
 		if k == 0 {
 			return
@@ -515,7 +517,11 @@ func portOf(hostport string) string {
 // chooses one and "the same string" cannot denote the endpoint on the client side.
 func kernelPicksPort(hostport string) bool {
 	p := portOf(hostport)
-	return p == "" || p == "0"
+	if p == "" {
+		return true
+	}
+	n, err := net.LookupPort("tcp", p)
+	return err == nil && n == 0 // "0", "00", ...
 }
 
 func addrOf(l net.Listener) string {
@@ -547,7 +553,7 @@ func checkBound(l net.Listener, cl addrClass) string {
 			return fmt.Sprintf("no socket file at %q after a successful bind", cl.Addr)
 		}
 	default:
-		if p := portOf(cl.Addr); p != "0" && p != "" {
+		if p := portOf(cl.Addr); !kernelPicksPort(cl.Addr) {
 			if np, err := net.LookupPort("tcp", p); err == nil {
 				if ta, ok := a.(*net.TCPAddr); ok && ta.Port != np {
 					return fmt.Sprintf("listening on port %d, the string says %s", ta.Port, p)
@@ -678,7 +684,14 @@ func runC19(tier string, r *Result) {
 		{{Op: "serve", Addr: "tcp4:127.0.0.1:0"}},
 	}
 	second := strs
-	if tier != "thorough" {
+	if tier == "thorough" {
+		second = nil
+		for _, a := range strs {
+			if !a.Tok || a.NTok <= 3 {
+				second = append(second, a)
+			}
+		}
+	} else {
 		// quick: the grammar product only (token sequences are covered at depth 1)
 		second = nil
 		for _, a := range strs {
